@@ -990,6 +990,88 @@ pub fn collision_table() -> Vec<Collision> {
     out
 }
 
+// ---- the result of a rule is a value like any other: converted to a base it is rounded --------------------
+
+/// A rule may return a number typed in a base with a fractional value (`{NUMBER:n} third` -> n / 3 in n's base). The line
+/// evaluates to the token the rule returns - and a base conversion that follows on the same line treats that token like any
+/// other N: `0x5 third to hex` is 0x2 (1.67 rounded), whatever base the token already has.
+#[derive(Clone, Debug, Serialize, Deserialize)]
+pub struct ThirdCase {
+    pub n: u32,
+    pub base: u8,
+    pub target: u8,
+    pub to: bool,
+}
+
+struct ThirdRule;
+impl RuleTrait for ThirdRule {
+    fn name(&self) -> String {
+        "third".to_string()
+    }
+    fn call(&self, _config: &SmartCalcConfig, fields: &BTreeMap<String, TokenType>) -> Option<TokenType> {
+        match fields.get("n") {
+            Some(TokenType::Number(n, ty)) => Some(TokenType::Number(*n / 3.0, ty.clone())),
+            _ => None,
+        }
+    }
+}
+
+pub struct ConvertedRuleResult;
+
+impl Prop for ConvertedRuleResult {
+    type Case = ThirdCase;
+    fn shrink_iters(&self) -> u32 {
+        100
+    }
+    fn name(&self) -> &'static str {
+        "rule-result-converted-to-a-base"
+    }
+    fn check(&self, w: &mut Worker, c: &ThirdCase) -> Verdict {
+        let src = crate::c13::Src { n: c.n as u64, base: c.base, frac: None, prefix_upper: false, digit_case: 0, pad: 0 };
+        let (tname, tbase) = crate::c13::TARGETS[c.target as usize % 5];
+        let line = format!("{} third {}{}", src.text(), if c.to { "to " } else { "" }, tname);
+        let rendered = format!("add_rule(en, [\"{{NUMBER:n}} third\"], n / 3 in n's base); {:?}", line);
+        let mut calc = build_calc(&Cfg::default());
+        let rule: Rc<dyn RuleTrait> = Rc::new(ThirdRule);
+        match guarded(|| calc.add_rule("en".to_string(), vec!["{NUMBER:n} third".to_string()], rule)) {
+            Ok(true) => {}
+            Ok(false) => return Verdict::fail("add_rule returned false".into(), rendered),
+            Err(p) => return Verdict::fail(format!("add_rule panicked at {}: {}", p.site, p.message), rendered),
+        }
+        w.count_eval(1);
+        let out = match eval_on(&calc, "en", &line) {
+            Ok(o) => o,
+            Err(p) => return Verdict::fail(format!("panic at {}: {}", p.site, p.message), rendered),
+        };
+        // n is never a multiple of 3 plus 1.5: n / 3 has the fraction 0, 1/3 or 2/3 - no ties
+        let want = (c.n as f64 / 3.0).round();
+        let want_ty = match tbase {
+            16 => NT::Hex,
+            8 => NT::Octal,
+            2 => NT::Binary,
+            _ => NT::Decimal,
+        };
+        let mut acc = Acc::new();
+        match out.slots.first() {
+            Some(Slot::Ok { v: V::Num(g, ty), .. }) if *g == want && *ty == want_ty => {}
+            other => acc.fail(format!("expected the base-{} number {} (a third of {} rounded), got {:?}", tbase, want, c.n, other.map(|s| s.brief()))),
+        }
+        acc.finish(rendered).nt(c.n % 3 != 0).class("rule-result-converted-to-a-base").class_if(c.base == tbase, "target-base-is-the-token's-own-base")
+    }
+}
+
+pub fn third_table() -> Vec<ThirdCase> {
+    let mut out = vec![];
+    for n in [1u32, 2, 3, 4, 5, 7, 8, 10, 11, 14, 16, 254, 255, 256, 4097, 65534] {
+        for base in [16u8, 8, 2, 10] {
+            for target in 0..5u8 {
+                out.push(ThirdCase { n, base, target, to: (n + target as u32) % 2 == 0 });
+            }
+        }
+    }
+    out
+}
+
 pub fn self_check() {
     let v = crate::vocab::vocab();
     for w in KEYWORDS.iter().chain(UNIT_NAMES.iter()).chain(RULE_NAMES.iter()) {
@@ -1012,6 +1094,7 @@ pub fn run(ctx: &Ctx) {
     ctx.run_generated(&Registry, ctx.tier.pick(1_000, 20_000), || history_strategy(max));
     ctx.run_table(&NameCollision, "name-collisions", collision_table(), true);
     ctx.run_table(&DeclinedThenAccepted, "two-patterns", two_patterns_table(), true);
+    ctx.run_table(&ConvertedRuleResult, "rule-result-converted", third_table(), true);
 }
 
 pub fn replay(w: &mut Worker, sub: &str, case: &serde_json::Value) -> Option<Verdict> {
@@ -1019,6 +1102,7 @@ pub fn replay(w: &mut Worker, sub: &str, case: &serde_json::Value) -> Option<Ver
         "registry-history" => crate::engine::replay_case(&Registry, w, case),
         "family-reusing-a-built-in-unit-name" => crate::engine::replay_case(&NameCollision, w, case),
         "declined-pattern-then-accepted-pattern" => crate::engine::replay_case(&DeclinedThenAccepted, w, case),
+        "rule-result-converted-to-a-base" => crate::engine::replay_case(&ConvertedRuleResult, w, case),
         _ => None,
     }
 }
